@@ -9,6 +9,7 @@ import SwimVerif.Proofs.TimeoutCoord
 import SwimVerif.Proofs.InactivityRt
 import SwimVerif.Proofs.InactivityDl
 import SwimVerif.Proofs.CoordPoll
+import SwimVerif.Proofs.CoordProg
 
 set_option linter.unusedVariables false
 namespace SwimVerif.Coord
@@ -424,6 +425,52 @@ example : (step (reach 2 [.act 0 .vote, .act 1 .vote]) (.act 0 .rescind)).2 = .u
 example : (step (reach 2 [.act 0 .vote, .act 0 .rescind]) (.act 0 .rescind)).2 = .pending := by decide
 /-- `vote; rescind; drop; other votes` (F11): the receiver is now ready. -/
 example : (step (reach 2 [.act 0 .vote, .act 0 .rescind, .act 0 .drop, .act 1 .vote]) .poll).2 = .ready := by
+  decide
+
+/-! ## The model is the source (translator tie)
+
+`Generated/TimeoutSrc.lean` is regenerated on every run from `runtime/swimos_runtime/src/timeout_coord/mod.rs` by
+`tools/extractors/c17.py`: the statement structure of `Voter::vote`, `Voter::rescind` (both the two-party
+`compare_exchange` and the CAS loop), `Drop for Voter` and `Receiver::poll`. -/
+
+open SwimVerif.CoordProg in
+/-- **Every API call of the model is the translated source of that call** (run to completion without interference), for
+every state, party index and idle voter: same next state (shared word, the voter's `voted` cell, the receiver's waker
+bookkeeping) and same answer.  `rescind` is the model's `load` step followed by its `compare_exchange` step. -/
+theorem C17_source_is_model (s : St) (i : Nat) (v : Voter) (hv : s.voters[i]? = some v) (hpc : v.pc = .idle) :
+    ((finish (execC Generated.TimeoutSrc.vote (start s i v)) .idle, (execC Generated.TimeoutSrc.vote (start s i v)).ret)
+        = ((stepAct s i .vote).1, some (stepAct s i .vote).2)) ∧
+    ((finish (execC Generated.TimeoutSrc.rescind (start s i v)) .idle,
+        (execC Generated.TimeoutSrc.rescind (start s i v)).ret) = ((apiRescind s i).1, some (apiRescind s i).2)) ∧
+    ((finish (execC Generated.TimeoutSrc.drop (start s i v)) .dead, (execC Generated.TimeoutSrc.drop (start s i v)).ret)
+        = ((stepAct s i .drop).1, none)) ∧
+    (((execC Generated.TimeoutSrc.poll { s := s, i := 0, voted := false }).s,
+        (execC Generated.TimeoutSrc.poll { s := s, i := 0, voted := false }).ret)
+        = ((step s .poll).1, some (step s .poll).2)) :=
+  ⟨vote_eq s i v hv hpc, rescind_eq s i v hv hpc, drop_eq s i v hv hpc, poll_eq s⟩
+
+open SwimVerif.CoordProg in
+/-- **The atomic steps of the interleaving model are the atomic accesses of the source**, in program order: `vote` is
+one `fetch_or` (then `wake` exactly when that access completed the set), `rescind` is nothing / one
+`compare_exchange` / `load` then at most one `compare_exchange`, `drop` is nothing or a `vote`, and `poll` is `load`,
+then — only when the set is incomplete — `register` and a SECOND `load` (the order `C17_poll_no_lost_wakeup` rests on). -/
+theorem C17_source_atomic_accesses (s : St) (i : Nat) (voted : Bool) :
+    (traceOf Generated.TimeoutSrc.vote s i voted = [.fetchOr] ∨
+      (traceOf Generated.TimeoutSrc.vote s i voted = [.fetchOr, .wake] ∧ s.flags = inverseOf s.n i)) ∧
+    (traceOf Generated.TimeoutSrc.rescind s i voted ∈ [[], [.cas true], [.cas false], [.load], [.load, .cas true]]) ∧
+    (traceOf Generated.TimeoutSrc.drop s i voted = [] ∨
+      traceOf Generated.TimeoutSrc.drop s i voted = traceOf Generated.TimeoutSrc.vote s i voted) ∧
+    (traceOf Generated.TimeoutSrc.poll s i voted = [.load] ∧ s.flags = allMask s.n ∨
+     traceOf Generated.TimeoutSrc.poll s i voted = [.load, .register, .load] ∧ s.flags ≠ allMask s.n) :=
+  atomic_accesses s i voted
+
+/-! Non-vacuity: three parties, two have voted; the translated `vote` of the third answers `Unanimous` and wakes; the
+translated `rescind` of a voter (three parties: the CAS loop) does `load`, `compare_exchange`. -/
+example : (SwimVerif.CoordProg.execC Generated.TimeoutSrc.vote
+      (SwimVerif.CoordProg.start (reach 3 [.act 0 .vote, .act 1 .vote]) 2 {})).ret = some .unanimous ∧
+    SwimVerif.CoordProg.traceOf Generated.TimeoutSrc.vote (reach 3 [.act 0 .vote, .act 1 .vote]) 2 false
+      = [.fetchOr, .wake] ∧
+    SwimVerif.CoordProg.traceOf Generated.TimeoutSrc.rescind (reach 3 [.act 0 .vote]) 0 true = [.load, .cas true] := by
   decide
 
 end SwimVerif.Coord
